@@ -20,6 +20,28 @@ def run(ck):
         seqs = [gen.mutate(ck.rng, root, alpha, 6, 3) + ('WKW' if k % 2 else '') for _ in range(nseq)]
         cases.append({'kind': 'dna' if k % 2 == 0 else 'protein', 'family': 'large-groups', 'seqs': seqs, 'type': 5, 'pens': [gen.NG] * 3, 'threads': ck.rng.choice([3, 4, 7])})
         ck.count('family:large-groups (>= 64 members, >= 512 columns)')
+    # >= 100 sequences (bisecting k-means): two tight families plus small outlier clusters of 1..3 sequences related to one family,
+    # so that the bisection peels off clusters of one, two and three leaves below the top split
+    for k in range(2 if ck.tier == 'quick' else 10):
+        alpha = gen.PROT if k % 2 == 0 else gen.DNA
+        tail = 'WKW' if k % 2 == 0 else ''
+        f1 = gen.rand_seq(ck.rng, alpha, ck.rng.range(130, 160)); core = gen.rand_seq(ck.rng, alpha, ck.rng.range(100, 125))
+        seqs = [gen.mutate(ck.rng, f1, alpha, 4, 0) + tail for _ in range(110)] + [gen.mutate(ck.rng, core, alpha, 4, 0) + tail for _ in range(110)]
+        for grp in range(ck.rng.range(1, 3)):
+            ins = gen.rand_seq(ck.rng, alpha, ck.rng.range(35, 45)); cut = len(core) // 2
+            o = core[:cut] + ins + core[cut:]
+            seqs += [gen.mutate(ck.rng, o, alpha, 30, 2) + tail for _ in range([2, 1, 3][(k + grp) % 3])]
+        ck.rng.shuffle(seqs)
+        cases.append({'kind': 'protein' if k % 2 == 0 else 'dna', 'family': 'kmeans-outlier-clusters', 'seqs': seqs, 'type': 5, 'pens': [gen.NG] * 3, 'threads': ck.rng.choice([1, 4])})
+        ck.count('family:kmeans-outlier-clusters (>= 100 sequences)')
+    # corpus: an input on which the bisecting k-means isolates a cluster of exactly two sequences below the top split
+    # (kept from the seeded round, seeded/C10-E)
+    import os
+    cf = os.path.join(os.path.dirname(os.path.dirname(os.path.dirname(os.path.abspath(__file__)))), 'gen', 'corpus_c10_two_families_outlier_pair.fa')
+    if os.path.exists(cf):
+        cn, cs = gen.parse_fasta(open(cf).read())
+        cases.insert(0, {'kind': 'protein', 'family': 'corpus:two-families-outlier-pair', 'seqs': cs, 'type': 5, 'pens': [gen.NG] * 3, 'threads': 4})
+        ck.count('family:corpus two families + outlier pair (222 sequences)')
     ck.rule = ('end-to-end runs with the NODE_DONE hook: at completion of every internal node the member rows are snapshotted; model merge_step '
                'replayed per merge on the observed ops and compared with every snapshot; extracted subalignment_b (strip of the final projection = snapshot) '
                'evaluated on the implementation data for every node; threads 1..16. Non-trivial = run with >= 2 internal nodes; distinct by input+settings')
